@@ -130,6 +130,12 @@ def skel(lb):
     return (ids_of(lb), lb.buffindex, sorted(((CODE[k], skel(c)) for k, c in lb.chapters.items()), key=lambda x: x[0]))
 
 
+def cshape(shape):
+    """{chapter: [sub-chapters]} -> the model's chapter-name tree"""
+    return "(Sh %s)" % clist(["(%s, Sh %s)" % (code(c), clist(["(%s, Sh [])" % code(x) for x in subs]))
+                              for c, subs in shape.items()])
+
+
 def cskel(s):
     return "(mkot %s %s %s)" % (czl(s[0]), zint(s[1]), clist(["(%s, %s)" % (cz(k), cskel(c)) for k, c in s[2]]))
 
@@ -147,7 +153,7 @@ def cdump(d):
     return "(LB %s %s %s %s %s)" % (recs, zint(d["buff"]), chs, copt(d["header"], cnames), cbool(bool(d["logh"])))
 
 
-BAD_CASE = "(CHist [] [(ONone, mkot [] 0 [])] new_lb)"       # a term on which check is false
+BAD_CASE = "(CHist None [] [(ONone, mkot [] 0 [])] new_lb)"       # a term on which check is false
 
 
 # ----------------------------------------------------------------------------
@@ -406,18 +412,22 @@ def alphabet(kind):
     if kind == "flat":          # no chapters
         recs = [{"id": 0, "x": 20}, {"id": 0, "y": 40}]
         chsel = ("select", [], ["y"])
+        shape = {}
     elif kind == "two":         # two chapters
         recs = [{"id": 0, "x": 20, "fit": {"m": 40}, "size": {"m": 60, "s": 80}},
                 {"id": 0, "fit": {"m": 40, "s": 50}, "size": {"m": 60}}]
         chsel = ("select", ["fit"], ["m", "s"])
+        shape = {"fit": [], "size": []}
     elif kind == "sub":         # sub-chapters (record / select / print only, per the quantifier; deletion is exercised anyway)
         recs = [{"id": 0, "x": 20, "fit": {"a": {"m": 40}, "b": {"m": 50, "s": 55}, "s": 60}},
                 {"id": 0, "fit": {"a": {"m": 40, "s": 45}, "b": {"m": 50}}, "x": 30}]
         chsel = ("select", ["fit", "b"], ["s"])
+        shape = {"fit": ["a", "b"]}
     elif kind == "three":
         recs = [{"id": 0, "age": {"m": 10}, "fit": {"m": 40}, "size": {"s": 80}},
                 {"id": 0, "x": 20, "size": {"m": 60}, "fit": {"s": 50}, "age": {"m": 10, "s": 15}}]
         chsel = ("select", ["age"], ["m"])
+        shape = {"age": [], "fit": [], "size": []}
     else:
         raise ValueError(kind)
     ops = [("record", recs[0]), ("record", recs[1]),
@@ -427,7 +437,7 @@ def alphabet(kind):
            ("delitem", 0), ("delitem", -2),
            ("delslice", 1, 3, None), ("delslice", None, None, -2), ("delslice", 2, 0, -1),
            ("pickle", 2)]
-    return ops
+    return ops, shape
 
 
 SMALL = [0, 1, 3, 5, 6, 7, 9, 10, 11, 12, 14]    # reduced alphabet (indices) for the deepest thorough scope
@@ -436,7 +446,7 @@ SMALL = [0, 1, 3, 5, 6, 7, 9, 10, 11, 12, 14]    # reduced alphabet (indices) fo
 def trie_cases(run, tools, kind, depth, subset=None, prefix_len=2):
     """All histories of exactly `depth` operations over the alphabet (their prefixes are all shorter
     histories), grouped by their first prefix_len operations into one CTrie case each."""
-    alpha = alphabet(kind)
+    alpha, shape = alphabet(kind)
     if subset is not None:
         alpha = [alpha[i] for i in subset]
     calpha = clist([cop(o) for o in alpha])
@@ -474,7 +484,7 @@ def trie_cases(run, tools, kind, depth, subset=None, prefix_len=2):
                 except Unprintable:
                     ok = False
         if ok:
-            terms.append("CTrie %s %s" % (calpha, clist(["(%s)" % i for i in items])))
+            terms.append("CTrie (Some %s) %s %s" % (cshape(shape), calpha, clist(["(%s)" % i for i in items])))
         else:
             terms.append(BAD_CASE)
         cases.append({"kind": "exhaustive/" + kind, "prefix": [repr(alpha[i]) for i in prefix], "depth": depth})
@@ -593,10 +603,10 @@ def rand_history(rng, uniform):
         else:
             ops.append(("logh", rng.random() < 0.5))
         n = len(ref)
-    return ops
+    return ops, shape
 
 
-def hist_case(run, tools, ops, uniform, kind, terms, cases, sample=False):
+def hist_case(run, tools, ops, uniform, kind, terms, cases, sample=False, shape=None):
     ops, steps, fin, viols = run_history(tools, ops, uniform)
     case = {"kind": kind, "uniform_chapters": uniform, "ops": [repr(o) for o in ops]}
     run.note_case((kind, repr(ops)), nontrivial=any(o[0] == "record" for o in ops), sample=case if sample else None)
@@ -605,7 +615,8 @@ def hist_case(run, tools, ops, uniform, kind, terms, cases, sample=False):
             run.oracle_violation(what, {"kind": kind, "uniform_chapters": uniform, "ops": [repr(o) for o in ops[:i + 1]]},
                                  signature=sig, observed=[repr(s) for s in steps[:i + 1]])
     try:
-        term = "CHist %s %s %s" % (clist([cop(o) for o in ops]),
+        term = "CHist %s %s %s %s" % ("(Some %s)" % cshape(shape) if (uniform and shape is not None) else "None",
+                                      clist([cop(o) for o in ops]),
                                    clist(["(%s, %s)" % (cout(o), cskel(s)) for o, s in steps]), cdump(fin))
     except Unprintable:
         term = BAD_CASE
@@ -773,6 +784,57 @@ def stats_cases(run, tools, n, terms, cases):
         cases.append(case)
 
 
+def statslog_cases(run, tools, n, terms, cases):
+    """for g, pop in enumerate(pops): logbook.record(id=g, **mstats.compile(pop)) -- as the algorithms do"""
+    rng = run.rng
+    for it in range(n):
+        names = rng.sample(["fit", "size", "age"], rng.randint(0, 3))
+        keyspecs = [rng.choice([("KLen",), ("KSum",), ("KItem", 0)]) for _ in names]
+        ms = tools.MultiStatistics(**{nm: tools.Statistics(key_fn(k)) for nm, k in zip(names, keyspecs)})
+        regs, sops = {}, []
+        for _ in range(rng.randint(0, 4)):
+            while True:
+                nm, cf, pf, args, kwargs = rand_reg(rng)
+                if not cf.startswith("(FProbe"):
+                    break
+            ms.register(nm, pf, *args, **kwargs)
+            regs[nm] = (pf, args, kwargs)
+            sops.append("(SRegister %s %s %s %s)" % (code(nm), cf, czl(args), clist(["(%s, %s)" % (code(k), cz(v)) for k, v in kwargs.items()])))
+        pops = [rand_data(rng, 1) for _ in range(rng.randint(0, 5))]
+        lb = tools.Logbook()
+        bad = []
+        try:
+            for g, pop in enumerate(pops):
+                lb.record(id=g, **ms.compile(copy.deepcopy(pop)))
+        except Exception as e:  # noqa
+            bad.append("record(**compile(...)) raised %s" % type(e).__name__)
+        case = {"kind": "statistics->logbook", "names": names, "keys": repr(keyspecs), "registered": sorted(regs), "populations": pops}
+        run.note_case(("statslog", it, repr(case)), nontrivial=bool(pops) and bool(names), sample=case if it < 1 else None)
+        if not bad:
+            if [dict(e) for e in list.__iter__(lb)] != [{"id": g} for g in range(len(pops))]:
+                bad.append("logbook holds %r" % (list(lb),))
+            if pops and sorted(lb.chapters) != sorted(names):
+                bad.append("chapters %r, expected %r" % (sorted(lb.chapters), sorted(names)))
+            for nm, k in zip(names, keyspecs):
+                want = []
+                for g, pop in enumerate(pops):
+                    values = tuple(key_fn(k)(e) for e in pop)
+                    ent = {f: pf(*(list(a) + [values]), **kw) for f, (pf, a, kw) in regs.items()}
+                    ent["id"] = g
+                    want.append(ent)
+                if pops and [dict(e) for e in list.__iter__(lb.chapters[nm])] != want:
+                    bad.append("chapter %s holds %r, expected one compiled record per generation: %r" % (nm, list(lb.chapters[nm]), want))
+        for b in bad:
+            run.oracle_violation(b, case, observed=repr(dump(lb)))
+        try:
+            term = "CStatsLog %s %s %s %s %s" % (code("id"), clist(["(%s, %s)" % (code(nm), ckey(k)) for nm, k in zip(names, keyspecs)]),
+                                                clist(sops), clist([clist([czl(x) for x in pop]) for pop in pops]), cdump(dump(lb)))
+        except Unprintable:
+            term = BAD_CASE
+        terms.append(term)
+        cases.append(case)
+
+
 # ----------------------------------------------------------------------------
 WITNESS = [("record", {"id": 0}), ("stream",), ("delitem", 0), ("record", {"id": 1}), ("stream",)]
 
@@ -797,7 +859,11 @@ def main(run):
     run.assumptions += ["every record of a history feeds the same chapter names (as MultiStatistics.compile produces)",
                         "record values are integers or dictionaries; keyword names are strings",
                         "a stream call on an empty logbook raises and delivers nothing (DESIGN Appendix B item 10)"]
+    import time
+    phases = {}
+    t0 = time.time()
     run.build_props()
+    phases["build"] = round(time.time() - t0, 1)
     rng = run.rng
 
     # ---- known finding: replay the witness on the implementation on every run ----
@@ -826,18 +892,27 @@ def main(run):
         t, c = trie_cases(run, tools, kind, run.scale(3, 4), prefix_len=run.scale(1, 2))
         terms += t
         cases += c
+    phases["exhaustive_python"] = round(time.time() - t0 - phases["build"], 1)
+    t1 = time.time()
     run.correspond("exhaustive", "C18", terms, cases, shard=max(1, (len(terms) + 15) // 16))
+    phases["exhaustive_coq"] = round(time.time() - t1, 1)
+    t1 = time.time()
 
     # ---- random histories ----
     terms, cases = [], []
-    hist_case(run, tools, WITNESS, True, "witness", terms, cases)
+    hist_case(run, tools, WITNESS, True, "witness", terms, cases, shape={})
     for it in range(run.scale(600, 12000)):
         uniform = rng.random() < 0.85
-        ops = rand_history(rng, uniform)
-        hist_case(run, tools, ops, uniform, "random", terms, cases, sample=it < 3)
+        ops, shape = rand_history(rng, uniform)
+        hist_case(run, tools, ops, uniform, "random", terms, cases, sample=it < 3, shape=shape)
     run.correspond("random", "C18", terms, cases)
+    phases["random"] = round(time.time() - t1, 1)
+    t1 = time.time()
 
     # ---- statistics ----
     terms, cases = [], []
     stats_cases(run, tools, run.scale(300, 4000), terms, cases)
+    statslog_cases(run, tools, run.scale(150, 2000), terms, cases)
     run.correspond("statistics", "C18", terms, cases)
+    phases["statistics"] = round(time.time() - t1, 1)
+    run.extra_cov["phase_seconds"] = phases
